@@ -711,6 +711,59 @@ fn main() {
         });
     }
 
+    // 2b. long strips: the long side at and around every power of two up to the format's limit
+    //     (chain length = floor(log2(long side)) + 1 is where float rounding and width limits bite),
+    //     the short side 1..3, both orientations, mipmaps on
+    {
+        let ts = cases::targets();
+        let mut strips = vec![];
+        let mut longs: Vec<u32> = vec![];
+        for e in 7..=15u32 {
+            for d in [-1i64, 0, 1] {
+                let v = (1i64 << e) + d;
+                if (1..=65_535).contains(&v) {
+                    longs.push(v as u32);
+                }
+            }
+        }
+        longs.push(65_535);
+        for (i, &l) in longs.iter().enumerate() {
+            for short in 1..=3u32 {
+                for flip in [false, true] {
+                    let (w, h) = if flip { (short, l) } else { (l, short) };
+                    let k = (i * 7 + short as usize * 3 + flip as usize) % ts.len();
+                    let c = Case {
+                        w,
+                        h,
+                        kind: 0,
+                        pix: (i + short as usize) % cases::PIX_CLASSES.len(),
+                        seed: (l * 31 + short).wrapping_mul(2654435761),
+                        target: ts[k],
+                        mips: true,
+                        filter: i % cases::FILTERS.len(),
+                        steered: "",
+                        canary: false,
+                    };
+                    strips.push(cases::steer(c, sw));
+                }
+            }
+        }
+        check.set_extra("strip_cases", json!(strips.len()));
+        let next = std::sync::atomic::AtomicUsize::new(0);
+        std::thread::scope(|s| {
+            for _ in 0..engine::WORKERS {
+                std::thread::Builder::new()
+                    .stack_size(32 << 20)
+                    .spawn_scoped(s, || loop {
+                        let i = next.fetch_add(1, std::sync::atomic::Ordering::Relaxed);
+                        let Some(c) = strips.get(i) else { break };
+                        let _ = run_case(&check, c, false);
+                    })
+                    .expect("spawn");
+            }
+        });
+    }
+
     // 3. random volume
     let n = check.tier.pick(60_000u32, 600_000);
     let max_dim = check.tier.pick(160u32, 512);
